@@ -142,13 +142,30 @@ fn c05(iters: usize, threads: usize, seed: u64) -> (Vec<String>, String) {
     let mut strings = 0usize;
     let mut nblocks = 0usize;
     for it in 0..iters {
+        // every fifth round uses the 8-bit key type and enough strings to exhaust it while threads in different
+        // shards are reserving: whatever the interner does with a string that gets no key must not disturb the
+        // regions of the strings that did
+        if it % 5 == 4 {
+            c05_round::<lasso::MicroSpur>(it, threads, seed, &mut rng, &mut fails, &mut strings, &mut nblocks, 44);
+        } else {
+            c05_round::<Spur>(it, threads, seed, &mut rng, &mut fails, &mut strings, &mut nblocks, 12);
+        }
+    }
+    (fails, format!("stats c05 iterations={iters} threads={threads} strings={strings} blocks={nblocks}"))
+}
+
+#[allow(clippy::too_many_arguments)]
+fn c05_round<K: lasso::Key + std::hash::Hash + Send + Sync + 'static>(
+    it: usize, threads: usize, seed: u64, rng: &mut Rng, fails: &mut Vec<String>, strings_total: &mut usize, nblocks_total: &mut usize, per: usize,
+) {
+    let exhausting = per > 12;
+    {
         // every fourth round: 1 MiB blocks under a 2.5 MiB limit, thread 0 stores one string of 1 MiB + 16 bytes
         // (it needs the block made of "whatever budget is left", and copying it takes a while) while the
         // others store short strings; every third of the remaining rounds: a limit a few blocks away, so that
         // the remaining-budget branch and refusals happen while others reserve
         let long_copy = it % 4 == 3;
         let block = if long_copy { 1usize << 20 } else { *rng.pick(&[8usize, 16, 32, 64]) };
-        let per = 12usize;
         let limit = if long_copy {
             Some((5usize << 19) + rng.below(64) as usize)
         } else if it % 3 == 1 {
@@ -156,7 +173,7 @@ fn c05(iters: usize, threads: usize, seed: u64) -> (Vec<String>, String) {
         } else {
             None
         };
-        let rodeo: Arc<ThreadedRodeo<Spur>> = Arc::new(match limit {
+        let rodeo: Arc<ThreadedRodeo<K>> = Arc::new(match limit {
             Some(l) => ThreadedRodeo::with_capacity_and_memory_limits(Capacity::new(64, NonZeroUsize::new(block).unwrap()), lasso::MemoryLimits::for_memory_usage(l)),
             None => ThreadedRodeo::with_capacity(Capacity::new(64, NonZeroUsize::new(block).unwrap())),
         });
@@ -166,7 +183,7 @@ fn c05(iters: usize, threads: usize, seed: u64) -> (Vec<String>, String) {
             let (rodeo, arrived) = (rodeo.clone(), arrived.clone());
             let mut r = Rng::new(seed ^ ((it as u64) << 20) ^ (t as u64));
             hs.push(std::thread::spawn(move || {
-                let mut mine: Vec<(String, Spur)> = Vec::new();
+                let mut mine: Vec<(String, K)> = Vec::new();
                 let mut bad = Vec::new();
                 spin_barrier(&arrived, threads);
                 for j in 0..per {
@@ -184,7 +201,7 @@ fn c05(iters: usize, threads: usize, seed: u64) -> (Vec<String>, String) {
                     // (under a limit a call may be refused: that string is simply not stored)
                     let k = match rodeo.try_get_or_intern(&s) {
                         Ok(k) => k,
-                        Err(_) if limit.is_some() => continue,
+                        Err(_) if limit.is_some() || exhausting => continue,
                         Err(e) => {
                             bad.push(format!("intern-failed-without-limit: {e:?}"));
                             continue;
@@ -201,7 +218,7 @@ fn c05(iters: usize, threads: usize, seed: u64) -> (Vec<String>, String) {
                 (mine, bad)
             }));
         }
-        let mut all: Vec<(String, Spur)> = Vec::new();
+        let mut all: Vec<(String, K)> = Vec::new();
         for h in hs {
             let (mine, bad) = h.join().unwrap();
             for b in bad {
@@ -212,8 +229,8 @@ fn c05(iters: usize, threads: usize, seed: u64) -> (Vec<String>, String) {
             all.extend(mine);
         }
         let blocks = rodeo.verif_blocks();
-        nblocks += blocks.len();
-        strings += all.len();
+        *nblocks_total += blocks.len();
+        *strings_total += all.len();
         // every string lies inside the used prefix of exactly one block; regions are disjoint
         let mut regions: Vec<(usize, usize, &str)> = Vec::new();
         for (x, k) in &all {
@@ -245,11 +262,12 @@ fn c05(iters: usize, threads: usize, seed: u64) -> (Vec<String>, String) {
         }
         let used: usize = blocks.iter().map(|b| b.2).sum();
         let stored: usize = all.iter().map(|(x, _)| x.len()).sum();
-        if used != stored && fails.len() < 20 {
+        // (a string refused for lack of keys has already been copied into the arena: only without such refusals
+        // do the reserved bytes equal the bytes of the stored strings)
+        if !exhausting && used != stored && fails.len() < 20 {
             fails.push(format!("ORACLE C05 reserved-bytes-mismatch: blocks have {used} reserved bytes, strings total {stored} (block {block}, iteration {it}, seed {seed})"));
         }
     }
-    (fails, format!("stats c05 iterations={iters} threads={threads} strings={strings} blocks={nblocks}"))
 }
 
 /// Same-string and different-string races on the interning path, incl. racing for the last keys of an
